@@ -321,18 +321,22 @@ def Manager.fromAbove (g : Manager) (m : Msg) (asg : List Nat) : HOut Manager :=
   | .eof => let (g', o) := g.shutdown; { st := g', direct := o }
   | _ => g.systemError eRuntime "unexpected message from above"
 
+/-- first half of `send_up_or_schedule_tasks`: as many tasks as there are idle workers are
+    scheduled locally (`UPDATE(n)` goes up first, then the batches, then the idle update) -/
+def Manager.schedLocal (g : Manager) (ts : List Task) (asg : List Nat) : HOut Manager :=
+  let n := g.boss.numIdle
+  if n != 0 then
+    let r := g.sched (ts.take n.toNat) asg
+    if r.note != "ok" then r
+    else
+      let (g2, up) := r.st.updateUp
+      { st := g2, queued := [(NodeId.server, Msg.update n)] ++ r.queued ++ up }
+  else { st := g }
+
 /-- `send_up_or_schedule_tasks` -/
 def Manager.sendUpOrSchedule (g : Manager) (ts : List Task) (asg : List Nat) : HOut Manager :=
-  let n := g.boss.numIdle
-  let k := n.toNat
-  let r1 : HOut Manager :=
-    if n != 0 then
-      let r := g.sched (ts.take k) asg
-      if r.note != "ok" then r
-      else
-        let (g2, up) := r.st.updateUp
-        { st := g2, queued := [(NodeId.server, Msg.update n)] ++ r.queued ++ up }
-    else { st := g }
+  let k := g.boss.numIdle.toNat
+  let r1 := g.schedLocal ts asg
   if r1.note != "ok" then r1
   else if ts.length > k then
     { r1 with queued := r1.queued ++ [(NodeId.server, Msg.batch (ts.drop k))] }
